@@ -32,6 +32,13 @@ JudgeFigure(e) ==
                  poly(k) == [j \in 1..Len(e.polys[k]) |-> PtR(e.polys[k][j])] IN
              Len(e.polys) # 5 \/ ~InClosedR(poly(r), pts[i]) \/ \E k \in 1..5 : k # r /\ InInteriorR(poly(k), pts[i])
        THEN "marker-not-in-the-region-that-classifies-it"
+  \* ... and the number the library itself assigns (get_phasePlotRegion on the same sequence) names a drawn region holding the marker
+  ELSE IF e.kind = "phase" /\ e.fromseq /\
+          \E i \in 1..Len(e.seqs) :
+             LET a == e.assigned[i]
+                 poly(k) == [j \in 1..Len(e.polys[k]) |-> PtR(e.polys[k][j])] IN
+             a \notin 1..5 \/ ~InClosedR(poly(a), pts[i]) \/ \E k \in 1..5 : k # a /\ InInteriorR(poly(k), pts[i])
+       THEN "marker-not-in-the-region-the-sequence-is-assigned"
   ELSE OK
 JudgeBars(e) ==
   LET N == Len(e.seq) IN
